@@ -1,5 +1,6 @@
 import Amgcl.Proofs.EnergyBuild
 import Amgcl.Proofs.EnergyExample
+import Amgcl.Proofs.EnergyBridgeExample
 /-!
 # C02 (mathematical clauses) — the cycle operator `B` is symmetric positive definite, the stationary iteration
 contracts, and `B(cA) = c⁻¹ B(A)`
@@ -302,12 +303,12 @@ are strictly `A`-contracting, and the backward sweep matrix is the transpose of 
 forward-pre / backward-post is a symmetric cycle) -/
 theorem gauss_seidel_contracts {n : ℕ} {A : Matrix (Fin n) (Fin n) 𝕜} (hA : IsSPD A) :
     Contr A (1 - gsN A * A) ∧ Contr A (1 - gsNback A * A) ∧ gsNback A = (gsN A)ᵀ ∧
-      gsM A + (gsM A)ᵀ - A = diagonal fun i => A i i :=
+      gsM A + (gsM A)ᵀ - A = Matrix.diagonal fun i => A i i :=
   ⟨gs_contr hA, gsBack_contr hA, gsNback_eq_transpose hA.1, gs_split hA.1⟩
 
 example : Contr Example.A4 (1 - gsN Example.A4 * Example.A4) ∧ Contr Example.A4 (1 - gsNback Example.A4 * Example.A4) ∧
     gsNback Example.A4 = (gsN Example.A4)ᵀ ∧
-    gsM Example.A4 + (gsM Example.A4)ᵀ - Example.A4 = diagonal fun i => Example.A4 i i :=
+    gsM Example.A4 + (gsM Example.A4)ᵀ - Example.A4 = Matrix.diagonal fun i => Example.A4 i i :=
   gauss_seidel_contracts Example.spd_A4
 
 /-! ## 6. Scaling -/
@@ -419,5 +420,71 @@ example :
     IsSPD (h.applyB ⟨1, 1, 1⟩ 1) :=
   (amg_spd_contracting_partial (.dampedJacobi (18/25)) ⟨by norm_num, by norm_num⟩ ⟨1, 1, 1⟩ rfl (by decide) (by decide)
     (by decide) Example.A4 Example.spd_A4 _ (Example.transfers_good _)).1
+
+/-! ## 8. Bridge to the executable model `Amg.cycle` / `Amg.apply` (arrays, `CRS`)
+
+`Bridge.Realizes sm direct n ls h`: the model hierarchy `ls` realises the abstract hierarchy `h` — level matrices and
+transfer operators are the dense denotations `matOf`, every smoother sweep acts as `x ↦ x + N (f − A x)` on the denoted
+vectors (`Bridge.SweepIs`), the direct solver solves `A_d x = f` exactly.  `Bridge.vecOf n x` reads an array as a
+vector.  What remains to be supplied by the other packages is listed in the file header of
+`Proofs/EnergyBridge.lean`: `SweepIs` per smoother (C06), exactness of the direct solver (C16), `matOf` of the Galerkin
+product (C03/C08) and of the transposed restriction (C08). -/
+section bridge
+open Amgcl.Amg Amgcl.Relax Amgcl.Energy.Bridge
+
+variable {K S : Type} [Field K] [LinearOrder K] [IsStrictOrderedRing K] [DecidableEq K]
+variable {sm : Smoother K S} {direct : CRS K → Vec K → Vec K}
+
+/-- the model cycle is, on the denoted vectors, the affine map `x ↦ x + B (f − A x)` with `B = Hier.B` — for all
+parameters, all scratch contents, any number of levels -/
+theorem model_cycle_is_matrix_recursion (prm : Params) {n : Nat} {ls : List (Level K S)} {h : Hier K n}
+    (hr : Realizes sm direct n ls h) (scr : List (Scratch K)) (f x : Vec K) (hl : scr.length = ls.length)
+    (hf : f.size = n) (hx : x.size = n) :
+    vecOf n (cycle prm sm direct ls scr f x).1 = step h.A (h.B (cyc prm)) (vecOf n f) (vecOf n x) :=
+  cycle_realizes prm hr scr f x hl hf hx
+
+example (prm : Params) (scr : List (Scratch ℚ)) (f x : Vec ℚ) (hl : scr.length = 2) (hf : f.size = 2)
+    (hx : x.size = 2) :
+    vecOf 2 (cycle prm Bridge.Example.sm Bridge.Example.direct [Bridge.Example.lv0, Bridge.Example.lv1] scr f x).1 =
+      step Bridge.Example.h2.A (Bridge.Example.h2.B (cyc prm)) (vecOf 2 f) (vecOf 2 x) :=
+  model_cycle_is_matrix_recursion prm Bridge.Example.realizes scr f x hl hf hx
+
+/-- **the model cycle strictly reduces the energy norm of the error**, whatever the scratch vectors contain -/
+theorem model_cycle_error_contracts (prm : Params) (hs : 0 < prm.npre + prm.npost) (hc : 0 < prm.ncycle) {n : Nat}
+    {ls : List (Level K S)} {h : Hier K n} (hr : Realizes sm direct n ls h) (hok : h.OK)
+    (scr : List (Scratch K)) (f x : Vec K) (hl : scr.length = ls.length) (hf : f.size = n) (hx : x.size = n)
+    (xs : Fin n → K) (hsol : h.A *ᵥ xs = vecOf n f) (hne : vecOf n x ≠ xs) :
+    en h.A (xs - vecOf n (cycle prm sm direct ls scr f x).1) (xs - vecOf n (cycle prm sm direct ls scr f x).1) <
+      en h.A (xs - vecOf n x) (xs - vecOf n x) := by
+  rw [cycle_realizes prm hr scr f x hl hf hx]
+  exact cycle_error_decreases (cyc prm) hs hc h hok _ _ xs hsol hne
+
+example (scr : List (Scratch ℚ)) (f x : Vec ℚ) (hl : scr.length = 2) (hf : f.size = 2) (hx : x.size = 2)
+    (xs : Fin 2 → ℚ) (hsol : Bridge.Example.h2.A *ᵥ xs = vecOf 2 f) (hne : vecOf 2 x ≠ xs) :
+    let prm : Params := ⟨1, true, 2, 1, 2, 2, 1, false⟩
+    let y := (cycle prm Bridge.Example.sm Bridge.Example.direct [Bridge.Example.lv0, Bridge.Example.lv1] scr f x).1
+    en Bridge.Example.h2.A (xs - vecOf 2 y) (xs - vecOf 2 y) < en Bridge.Example.h2.A (xs - vecOf 2 x) (xs - vecOf 2 x) :=
+  model_cycle_error_contracts ⟨1, true, 2, 1, 2, 2, 1, false⟩ (by decide) (by decide) Bridge.Example.realizes
+    Bridge.Example.h2_OK scr f x hl hf hx xs hsol hne
+
+/-- **the model preconditioner `amg::apply` is multiplication by a symmetric positive definite matrix `B`** whose
+stationary iteration contracts (`pre_cycles ≥ 1`, symmetric cycle) -/
+theorem model_apply_spd (prm : Params) (hnu : prm.npre = prm.npost) (hs : 0 < prm.npre) (hc : 0 < prm.ncycle)
+    (hpc : 0 < prm.pre_cycles) {n : Nat} {ls : List (Level K S)} {h : Hier K n} (hr : Realizes sm direct n ls h)
+    (hok : h.OK) (hsym : h.Sym) :
+    ∃ B : Matrix (Fin n) (Fin n) K, IsSPD B ∧ Contr h.A (1 - B * h.A) ∧
+      ∀ (scr : List (Scratch K)) (f : Vec K), scr.length = ls.length → f.size = n →
+        vecOf n (apply prm sm direct ls scr f).1 = B *ᵥ vecOf n f :=
+  have hB := apply_spd (cyc prm) hnu hs hc hpc h hok hsym
+  ⟨h.applyB (cyc prm) prm.pre_cycles, hB.1, hB.2, fun scr f hl hf => apply_realizes prm hpc hr scr f hl hf⟩
+
+example : ∃ B : Matrix (Fin 2) (Fin 2) ℚ, IsSPD B ∧ Contr Bridge.Example.h2.A (1 - B * Bridge.Example.h2.A) ∧
+    ∀ (scr : List (Scratch ℚ)) (f : Vec ℚ), scr.length = 2 → f.size = 2 →
+      vecOf 2 (apply ⟨1, true, 2, 2, 2, 1, 1, false⟩ Bridge.Example.sm Bridge.Example.direct
+        [Bridge.Example.lv0, Bridge.Example.lv1] scr f).1 = B *ᵥ vecOf 2 f :=
+  model_apply_spd ⟨1, true, 2, 2, 2, 1, 1, false⟩ rfl (by decide) (by decide) (by decide) Bridge.Example.realizes
+    Bridge.Example.h2_OK Bridge.Example.h2_Sym
+
+end bridge
 
 end Amgcl.C02b
